@@ -6,8 +6,9 @@
      [4; name; payload; values; nrecv; r...; k; v; ...]              free signal
      [5; cat; name; def; ty; default; v1; v2; ...]                   define (cat 0 signal, 1 frame, 2 ecu, 3 global; default -1 = None)
      [6; k; v]  global attribute     [7; k; v]  environment variable
-   An operation is a header group followed by its source matrix/matrices (glob -1 = "*"):
-     [10; id; ext] copy_frame   [11; g] copy_ecu   [12; g; rx; tx; direct] copy_ecu_with_frames   [13; g] copy_signal
+   An operation is a header group followed by its source matrix/matrices:
+     [10; id; ext] copy_frame   [11; g; names...] copy_ecu   [12; g; rx; tx; direct; names...] copy_ecu_with_frames
+     [13; g; names...] copy_signal     (g = -1: the pattern "*"; otherwise the pattern selects exactly `names`)
      [14; n] merge of n sources.
    1201: target matrix, operations...  ->  [8; err; result of every copy_frame in order] then the target's groups
    1202: [attribute names] then a matrix -> one group of effective values (None = -1) per ECU, frame, frame signal,
@@ -64,7 +65,7 @@ Fixpoint parse_n (n : nat) (gs : io) : list matrix * io :=
   | S k => let (m, r) := parse_m gs empty_matrix in
            let (ms, r') := parse_n k r in (m :: ms, r')
   end.
-Definition glob_of (z : Z) : option Z := if z <? 0 then None else Some z.
+Definition glob_of (z : Z) (names : list Z) : glob := if z <? 0 then None else Some names.
 Fixpoint parse_ops (fuel : nat) (gs : io) : list op :=
   match fuel with
   | O => []
@@ -74,10 +75,10 @@ Fixpoint parse_ops (fuel : nat) (gs : io) : list op :=
       | h :: r =>
           match h with
           | 10 :: id :: ext :: _ => let (s, r') := parse_m r empty_matrix in OpCopyFrame (id, zb ext) s :: parse_ops k r'
-          | 11 :: g :: _ => let (s, r') := parse_m r empty_matrix in OpCopyEcu (glob_of g) s :: parse_ops k r'
-          | 12 :: g :: rx :: tx :: d :: _ =>
-              let (s, r') := parse_m r empty_matrix in OpCopyEcuFrames (glob_of g) (zb rx) (zb tx) (zb d) s :: parse_ops k r'
-          | 13 :: g :: _ => let (s, r') := parse_m r empty_matrix in OpCopySignal (glob_of g) s :: parse_ops k r'
+          | 11 :: g :: ns => let (s, r') := parse_m r empty_matrix in OpCopyEcu (glob_of g ns) s :: parse_ops k r'
+          | 12 :: g :: rx :: tx :: d :: ns =>
+              let (s, r') := parse_m r empty_matrix in OpCopyEcuFrames (glob_of g ns) (zb rx) (zb tx) (zb d) s :: parse_ops k r'
+          | 13 :: g :: ns => let (s, r') := parse_m r empty_matrix in OpCopySignal (glob_of g ns) s :: parse_ops k r'
           | 14 :: n :: _ => let (ss, r') := parse_n (Z.to_nat n) r in OpMerge ss :: parse_ops k r'
           | _ => []
           end
